@@ -183,6 +183,8 @@ def decorate(rng, inst, allow_sets=True):
     inst['reactants_set'] = allow_sets and rng.random() < 0.25
     inst['products_set'] = allow_sets and rng.random() < 0.25
     inst.setdefault('amounts', 'fraction')
+    if not inst.get('formula') and 0 in inst_keys(inst) and rng.random() < 0.4:
+        inst['charge_arg'] = True          # net charges through Substance(..., charge=q, composition={...without key 0...})
     return inst
 
 
@@ -295,7 +297,7 @@ def call_args(inst):
     """positional/keyword arguments of the real call for this instance"""
     from chempy import Substance
     norm_inst(inst)
-    table = {nm: (None if comp is None else {int(a): amount(inst, b) for a, b in comp}) for nm, comp in inst['substances']}
+    table = dict(inst['substances'])
     r = set(inst['reactants']) if inst['reactants_set'] else list(inst['reactants'])
     p = set(inst['products']) if inst['products_set'] else list(inst['products'])
     kw = {}
@@ -303,7 +305,7 @@ def call_args(inst):
         kw['substances'] = substances_of(inst)
     else:
         if not inst.get('formula'):          # formula instances: the default factory Substance.from_formula parses the key
-            kw['substance_factory'] = lambda k: Substance(k, composition=None if table[k] is None else dict(table[k]))
+            kw['substance_factory'] = lambda k: make_substance(inst, k, table[k])
         kw['substances'] = None if inst['via'] == 'factory' else ' '.join(inst['string_keys'])
     return r, p, kw
 
@@ -475,12 +477,25 @@ def amount(inst, q):
     return float(q) if a == 'float' else (float(q) / 3) * 3
 
 
+def make_substance(inst, nm, comp):
+    """how a composition reaches balance_stoichiometry other than through from_formula: a dict (net charge under key 0), or -
+    `charge_arg` - the constructor's `charge=` argument next to a composition WITHOUT key 0 (possibly empty: a pure charge carrier
+    such as Substance('e-', charge=-1, composition={})); the constructor stores the charge under key 0"""
+    from chempy import Substance
+    if comp is None:
+        return Substance(nm, composition=None)
+    d = {int(a): amount(inst, b) for a, b in comp}
+    if inst.get('charge_arg') and 0 in d:
+        c = d.pop(0)
+        return Substance(nm, charge=c, composition=d)
+    return Substance(nm, composition=d)
+
+
 def substances_of(inst):
     from chempy import Substance
     if inst.get('formula'):
         return OrderedDict((nm, Substance.from_formula(nm)) for nm, _ in inst['substances'])
-    return OrderedDict((nm, Substance(nm, composition=None if comp is None else {int(a): amount(inst, b) for a, b in comp}))
-                       for nm, comp in inst['substances'])
+    return OrderedDict((nm, make_substance(inst, nm, comp)) for nm, comp in inst['substances'])
 
 
 def show_entry(v):
@@ -765,8 +780,8 @@ class C02(Property):
                 rng.shuffle(p1)
                 inst2 = decorate(rng, dict(inst, reactants=r1, products=p1), allow_sets=False)
                 add({'op': 'dup', 'kind': 'dup', 'inst': inst2, 'mode': 'None'})
-                if rng.random() < 0.3:
-                    add({'op': 'dup', 'kind': 'dup', 'inst': inst2, 'mode': rng.choice(['True', 'False'])})
+                if rng.random() < 0.4:
+                    add({'op': 'dup', 'kind': 'dup', 'inst': inst2, 'mode': rng.choice(['True', 'False', '1', '1'])})
                 if rng.random() < 0.3:
                     add({'op': 'balance', 'kind': 'dup-disallowed', 'mode': rng.choice(['True', 'False', 'None']), 'inst': inst2})
             if it % 9 == 4:
